@@ -34,6 +34,8 @@ Local Open Scope R_scope.
    D. further variants and the sharpness of the hypotheses:
         newton_sqrt_converges         x^2 - c from ANY x0 > 0: Ok as soon as (max_iter - 1) tol > (x0 + c/x0)/2 - sqrt c
                                       (completes newton_sqrt: first half of the sentence, basin = half line);
+        central_difference_truncation / scalar_derivative_truncation
+                                      the slope of the scalar pass is within (delta^2/6) sup|f^(3)| of f'(y);
         newton_scalar_affine_exact / newton_affine_exact_C
                                       the scalar solve on a z + b over any field, and Newton<Cmplx>::solve;
         newton_sys1d_ok_near_root / newton_sys1d_basin_no_panic / newton_sys1d_basin_ok
@@ -48,7 +50,7 @@ Local Open Scope R_scope.
 From Coq Require Import Lia.
 From OV Require Import Proofs.SolveBase Proofs.Solve Proofs.SolveQc Proofs.Newton2Sys Proofs.Newton2Real
   Proofs.Newton2Scalar Proofs.Newton2Mono Proofs.Newton2Sqrt Proofs.Newton2Sys1d Proofs.Newton2Wit.
-From OV Require Proofs.SolveC Proofs.Newton2Inst Proofs.Newton2Cplx.
+From OV Require Proofs.SolveC Proofs.Newton2Inst Proofs.Newton2Cplx Proofs.Newton2Cdq.
 Local Close Scope R_scope.
 Local Open Scope nat_scope.
 
@@ -545,6 +547,53 @@ Example newton_sqrt_converges_nonvacuous :
   0 < 4 /\ 1 <> 0 /\ 0 < 1 /\ (1 + 4 / 1) / 2 - R_sqrt.sqrt 4 < INR (3 - 1) * (1 / 2).
 Proof.
   replace 4 with (2 * 2) at 3 by ring. rewrite sqrt_square by lra. cbn [INR Nat.sub]. lra.
+Qed.
+
+(* accuracy of the slope the scalar pass divides by: the central difference quotient
+   (f(y + delta) - f(y - delta)) / (2 delta) is within (delta^2 / 6) sup |f^(3)| of f'(y) *)
+Theorem central_difference_truncation : forall (g g1 g2 g3 : R -> R) (y d B : R), d <> 0 ->
+  (forall x, y - Rabs d <= x <= y + Rabs d -> derivable_pt_lim g x (g1 x)) ->
+  (forall x, y - Rabs d <= x <= y + Rabs d -> derivable_pt_lim g1 x (g2 x)) ->
+  (forall x, y - Rabs d <= x <= y + Rabs d -> derivable_pt_lim g2 x (g3 x)) ->
+  (forall x, y - Rabs d <= x <= y + Rabs d -> Rabs (g3 x) <= B) ->
+  Rabs ((g (y + d) - g (y - d)) / (2 * d) - g1 y) <= d * d / 6 * B.
+Proof. exact Newton2Cdq.central_diff_trunc. Qed.
+Check central_difference_truncation : forall (g g1 g2 g3 : R -> R) (y d B : R), d <> 0 ->
+  (forall x, y - Rabs d <= x <= y + Rabs d -> derivable_pt_lim g x (g1 x)) ->
+  (forall x, y - Rabs d <= x <= y + Rabs d -> derivable_pt_lim g1 x (g2 x)) ->
+  (forall x, y - Rabs d <= x <= y + Rabs d -> derivable_pt_lim g2 x (g3 x)) ->
+  (forall x, y - Rabs d <= x <= y + Rabs d -> Rabs (g3 x) <= B) ->
+  Rabs ((g (y + d) - g (y - d)) / (2 * d) - g1 y) <= d * d / 6 * B.
+Print Assumptions central_difference_truncation.
+
+Theorem scalar_derivative_truncation : forall (f f1 f2 f3 : R -> R) (B tl dl y x' : R) bt e,
+  scalar_step NRl tl dl (fun t => Ok (f t)) y = Ok (x', bt, e) ->
+  (forall x, y - Rabs dl <= x <= y + Rabs dl -> derivable_pt_lim f x (f1 x)) ->
+  (forall x, y - Rabs dl <= x <= y + Rabs dl -> derivable_pt_lim f1 x (f2 x)) ->
+  (forall x, y - Rabs dl <= x <= y + Rabs dl -> derivable_pt_lim f2 x (f3 x)) ->
+  (forall x, y - Rabs dl <= x <= y + Rabs dl -> Rabs (f3 x) <= B) ->
+  x' = y - f y / ((f (y + dl) - f (y - dl)) / (2 * dl)) /\
+  Rabs ((f (y + dl) - f (y - dl)) / (2 * dl) - f1 y) <= dl * dl / 6 * B.
+Proof. exact Newton2Cdq.scalar_deriv_trunc_lemma. Qed.
+Check scalar_derivative_truncation : forall (f f1 f2 f3 : R -> R) (B tl dl y x' : R) bt e,
+  scalar_step NRl tl dl (fun t => Ok (f t)) y = Ok (x', bt, e) ->
+  (forall x, y - Rabs dl <= x <= y + Rabs dl -> derivable_pt_lim f x (f1 x)) ->
+  (forall x, y - Rabs dl <= x <= y + Rabs dl -> derivable_pt_lim f1 x (f2 x)) ->
+  (forall x, y - Rabs dl <= x <= y + Rabs dl -> derivable_pt_lim f2 x (f3 x)) ->
+  (forall x, y - Rabs dl <= x <= y + Rabs dl -> Rabs (f3 x) <= B) ->
+  x' = y - f y / ((f (y + dl) - f (y - dl)) / (2 * dl)) /\
+  Rabs ((f (y + dl) - f (y - dl)) / (2 * dl) - f1 y) <= dl * dl / 6 * B.
+Print Assumptions scalar_derivative_truncation.
+
+(* x^3 - 2 at y = 5/4, delta = 1/4: the quotient is 19/4, f'(5/4) = 75/16, the third derivative is 6 = B,
+   and the bound (1/16)/6 * 6 = 1/16 is attained *)
+Example scalar_derivative_truncation_nonvacuous :
+  (exists x' bt e, scalar_step NRl 1 (1 / 4) (fun t => Ok (cube2 t)) (5 / 4) = Ok (x', bt, e)) /\
+  (forall x, derivable_pt_lim cube2 x (cube2' x)) /\ (forall x, derivable_pt_lim cube2' x (6 * x)) /\
+  (forall x, derivable_pt_lim (fun x => 6 * x) x 6) /\ Rabs 6 <= 6.
+Proof.
+  split; [do 3 eexists; exact cube2_pass|]. split; [exact cube2_der|]. split; [exact cube2_der2|].
+  split; [exact cube2_der3|]. rewrite Rabs_right; lra.
 Qed.
 
 (* the finite-difference system solve on a nonlinear 1 x 1 system p = [x] |-> [f x]:
